@@ -62,7 +62,8 @@ Step(t) ==
   /\ ~Done(t)
   /\ sched' = Append(sched, t)
   /\ LET op == Op(t) IN
-     CASE op.m \in {"store", "load", "losf", "delete", "lad", "replace", "length", "clos", "cload", "cdelete"} ->
+     CASE op.m \in {"store", "load", "losf", "delete", "lad", "replace", "length", "clos", "cload", "cdelete",
+                       "storef", "loadf", "replacef", "deletef", "ladf", "ladall", "copy", "range2"} ->
             LET a == SeqApply(op, data) IN Finish(t, a.res, a.d)
        [] op.m = "los" ->
             IF th[t].ph = 0
